@@ -6,6 +6,8 @@ CONSTANTS
   Strategies = {"MASTER", "BOTH", "REPLICA"}
   Kinds = {"read", "write", "unsupported", "local"}
   MaxReq = 1
+  MaxUpdates = 0
+  StickyStrategy = FALSE
   SharedScratch = FALSE
 ACTION_CONSTRAINT ForeignReadsOnly
 CHECK_DEADLOCK FALSE
